@@ -1,6 +1,7 @@
 package checks
 
 import (
+	"fmt"
 	"go/ast"
 	"go/parser"
 	"go/token"
@@ -30,7 +31,9 @@ func c14N(tier string) int {
 }
 
 // c14Build builds one package for (type text, variant) and returns the outcome plus the type the builder reported.
-func c14Build(u *ref.Universe, typeText string, variant int) (o *drive.Outcome, reported types.Type, target types.Type) {
+// lazy: the zero value is requested for `type Lz <typeText>` declared with NewType but whose body is supplied only when
+// Config.LoadNamed asks for it (how a front end handles a type used before its declaration is compiled).
+func c14Build(u *ref.Universe, typeText string, variant int, lazy bool) (o *drive.Outcome, reported types.Type, target types.Type) {
 	src := "package main\n" + gen.TypeImports + gen.TypePrelude + gen.TypeUses + "\nvar gerr error\nvar v " + typeText + "\n"
 	o = &drive.Outcome{OpKinds: map[string]int{}}
 	f, err := parser.ParseFile(u.Fset, "c14.go", src, parser.SkipObjectResolution)
@@ -46,7 +49,17 @@ func c14Build(u *ref.Universe, typeText string, variant int) (o *drive.Outcome, 
 		o.Msg = "generated type invalid: " + firstN(o.SrcErrs, 1)
 		return
 	}
-	pkg := drive.NewPackage(u, "main", drive.Opt{}, o)
+	var lzDecl *gogen.TypeDecl
+	var lzUnder types.Type
+	opt := drive.Opt{}
+	if lazy {
+		opt.LoadNamed = func(at *gogen.Package, typ *types.Named) {
+			if lzDecl != nil && typ == lzDecl.Type() && !lzDecl.Inited() && lzUnder != nil {
+				lzDecl.InitType(at, lzUnder)
+			}
+		}
+	}
+	pkg := drive.NewPackage(u, "main", opt, o)
 	func() {
 		defer func() {
 			if e := recover(); e != nil {
@@ -59,6 +72,16 @@ func c14Build(u *ref.Universe, typeText string, variant int) (o *drive.Outcome, 
 		c := &fe.Compiler{Pkg: pkg}
 		c.CompileFile(f)
 		T := pkg.Types.Scope().Lookup("v").Type()
+		if lazy {
+			lzUnder = T
+			lzDecl = pkg.NewTypeDefs().NewType("Lz")
+			T = lzDecl.Type()
+			defer func() {
+				if !lzDecl.Inited() { // nobody needed the body: the front end supplies it at the end
+					lzDecl.InitType(pkg, lzUnder)
+				}
+			}()
+		}
 		target = T
 		cb := pkg.CB()
 		switch variant {
@@ -109,9 +132,17 @@ func c14Run(tier string, seed uint64, i int) []h.Result {
 	typeText := g.Type(depth)
 	u := sharedUniverse()
 	var out []h.Result
-	for v, vn := range c14Variants {
+	for vv := 0; vv < 2*len(c14Variants); vv++ {
+		v, lazy := vv%len(c14Variants), vv >= len(c14Variants)
+		vn := c14Variants[v]
+		if lazy {
+			if _, isIface := sharedTypeIsInterface(u, typeText); isIface {
+				continue // `type Lz <interface>`: same path as the eager case
+			}
+			vn = "lazily declared type: " + vn
+		}
 		res := h.Result{Key: "zero[" + vn + "] of " + typeText, Verdict: h.Held}
-		o, reported, T := c14Build(u, typeText, v)
+		o, reported, T := c14Build(u, typeText, v, lazy)
 		switch o.Status {
 		case "fe", "imbalance":
 			res.Verdict, res.Kind, res.Detail = h.Skip, o.Status, o.Msg
@@ -145,9 +176,19 @@ func c14Run(tier string, seed uint64, i int) []h.Result {
 				}
 			}
 			want := o.Out.Pkg.Scope().Lookup("v").Type()
+			if lazy {
+				want = o.Out.Pkg.Scope().Lookup("Lz").Type()
+			}
 			if yt == nil || !types.Identical(yt, want) {
 				res.Verdict, res.Kind = h.Violated, "inferred-type: "+drive.TypeStr(yt)
 				res.Detail = "`y := <zero>` gives y the type " + drive.TypeStr(yt) + ", requested " + drive.TypeStr(want) + "\n" + zerosFunc(o.Output())
+			}
+		}
+		if res.Verdict == h.Held {
+			// shape: the zero value of a nil-able type is nil (possibly converted), never an empty literal — which type-checks
+			// but is a non-nil empty slice / map
+			if d := c14Shape(o, v, T); d != "" {
+				res.Verdict, res.Kind, res.Detail = h.Violated, "not-the-zero-value", d+"\n"+zerosFunc(o.Output())
 			}
 		}
 		if res.Verdict == h.Violated && (v == 1 || v == 2) {
@@ -157,7 +198,7 @@ func c14Run(tier string, seed uint64, i int) []h.Result {
 				switch m[1] {
 				case "nil", "0", `""`, "false":
 					res.Detail = "type: " + typeText + "\n" + res.Detail
-					res.Key = "zero[" + vn + "]: the zero value is emitted as the bare untyped literal " + m[1] + " (T is not the literal's default type)"
+					res.Key = "zero[" + c14Variants[v] + "]: the zero value is emitted as the bare untyped literal " + m[1] + " (T is not the literal's default type)"
 					res.Kind = "untyped-zero-in-define-context"
 				}
 			}
@@ -168,6 +209,78 @@ func c14Run(tier string, seed uint64, i int) []h.Result {
 		out = append(out, res)
 	}
 	return out
+}
+
+// sharedTypeIsInterface is a cheap syntactic test (the lazy variant is skipped for interface types).
+func sharedTypeIsInterface(u *ref.Universe, typeText string) (struct{}, bool) {
+	t := strings.TrimSpace(typeText)
+	return struct{}{}, strings.HasPrefix(t, "interface") || t == "any" || t == "error" || t == "MyIface" || t == "MyEmpty" || strings.HasSuffix(t, ".I") || t == "io.Reader"
+}
+
+// c14Shape finds the synthesised zero expression in the output and checks its shape against the kind of T.
+func c14Shape(o *drive.Outcome, variant int, T types.Type) string {
+	if o.Out == nil || T == nil {
+		return ""
+	}
+	var e ast.Expr
+	for _, f := range o.Out.Files {
+		ast.Inspect(f, func(n ast.Node) bool {
+			switch x := n.(type) {
+			case *ast.ValueSpec:
+				if variant == 0 && len(x.Names) == 1 && x.Names[0].Name == "z" && len(x.Values) == 1 {
+					e = x.Values[0]
+				}
+			case *ast.AssignStmt:
+				if (variant == 1 || variant == 2) && len(x.Lhs) == 1 && len(x.Rhs) == 1 {
+					if id, ok := x.Lhs[0].(*ast.Ident); ok && id.Name == "y" {
+						e = x.Rhs[0]
+					}
+				}
+			case *ast.ReturnStmt:
+				if variant == 3 && len(x.Results) == 2 {
+					e = x.Results[0]
+				}
+			case *ast.CallExpr:
+				if variant == 4 {
+					if id, ok := x.Fun.(*ast.Ident); ok && id.Name == "opt" && len(x.Args) == 2 {
+						e = x.Args[1]
+					}
+				}
+			}
+			return true
+		})
+	}
+	if e == nil {
+		return ""
+	}
+	// strip parentheses and conversions T(x)
+	for {
+		switch x := e.(type) {
+		case *ast.ParenExpr:
+			e = x.X
+			continue
+		case *ast.CallExpr:
+			if len(x.Args) == 1 {
+				if tv, ok := o.Out.Info.Types[x.Fun]; ok && tv.IsType() {
+					e = x.Args[0]
+					continue
+				}
+			}
+		}
+		break
+	}
+	switch T.Underlying().(type) {
+	case *types.Slice, *types.Map, *types.Pointer, *types.Chan, *types.Signature, *types.Interface:
+		if id, ok := e.(*ast.Ident); !ok || id.Name != "nil" {
+			return "the zero value of a " + strings.TrimPrefix(fmt.Sprintf("%T", T.Underlying()), "*types.") + " type is nil; emitted " + types.ExprString(e)
+		}
+	case *types.Basic:
+		switch e.(type) {
+		case *ast.CompositeLit:
+			return "the zero value of a basic type is a literal; emitted " + types.ExprString(e)
+		}
+	}
+	return ""
 }
 
 var reDefineRHS = regexp.MustCompile(`(?m)^\ty := (.*)$`)
@@ -193,7 +306,8 @@ func init() {
 		ID: "C14", Level: "exploration",
 		Rule: "for random types T of the C13 type algebra (depth 0-3: every basic kind, named types over each kind, pointers, slices, maps, channels, functions, interfaces, arrays, structs, aliases, instantiated generics, types of two fixture packages and std) the zero value is " +
 			"synthesised through the builder API in 5 positions: `var z T = ZeroLit(T)`, `y := ZeroLit(T)`, the zero-argument conversion `y := T()`, ReturnErr padding in a func() (T, error), and an omitted optional parameter of type T; each scenario is its own package, " +
-			"printed and re-checked: Go must accept it, `y` must get exactly type T, and the type reported on the operand stack must be T. non-trivial = scenario built and re-checked; distinct by (variant, type text)",
+			"printed and re-checked: Go must accept it, `y` must get exactly type T, the type reported on the operand stack must be T, and the emitted expression must have the shape of T's zero value (nil for slice/map/pointer/chan/func/interface kinds - an empty composite literal type-checks but is not nil). " +
+			"Every scenario is repeated for `type Lz T` declared lazily (NewType now, body supplied by Config.LoadNamed on demand): the zero value is requested before anything else has loaded the type. non-trivial = scenario built and re-checked; distinct by (variant, type text)",
 		Assume: []string{"go/types on the emitted package", "run-time zero-ness (reflect.IsZero) is not executed in this tier: typing only"},
 		MinNT:  500,
 		Plan:   func(tier string, seed uint64) int { return c14N(tier) },
